@@ -16,9 +16,10 @@
 (*  [op |-> "wait", w, prev, t0, t1, ret, idx, err, c0, c1]                  *)
 (*      c0/c1 = stamps around the cancellation of its context (-1: none),   *)
 (*      ret = FALSE: it had not returned when the driver gave up at t1      *)
-(*  [op |-> "notify", t0, t1]          tracker.NotifyOfChange()             *)
-(*  [op |-> "unlock", t0, t1, before, after]  TrackingLock.Unlock(), with   *)
-(*      the index read while holding the lock and right after Unlock        *)
+(*  [op |-> "notify", t0, t1, ret]     tracker.NotifyOfChange()             *)
+(*  [op |-> "unlock", t0, t1, ret, before, after]  TrackingLock.Unlock(),   *)
+(*      with the index read while holding the lock and right after Unlock   *)
+(* Every call runs under a watchdog; ret = FALSE: not back at t1.           *)
 (*  [op |-> "terminate", t0, t1, ret]                                       *)
 (***************************************************************************)
 EXTENDS TrackerProps, Integers, FiniteSets, Sequences, TraceKit
@@ -43,7 +44,7 @@ CaseFails(i, r) ==
       Waits == {k \in K : C[k].op = "wait"}
       TermStart == SetMin({C[k].t0 : k \in Terms} \cup {Inf})
       TermEnd == SetMin({C[k].t1 : k \in {x \in Terms : C[x].ret}} \cup {Inf})
-      Def == {k \in Notifs : C[k].t1 < TermStart}        \* certainly took effect
+      Def == {k \in Notifs : C[k].ret /\ C[k].t1 < TermStart}   \* certainly took effect
       Poss == {k \in Notifs : C[k].t0 <= TermEnd}        \* may have taken effect
       Lo(t) == 1 + Cardinality({k \in Def : C[k].t1 < t})
       LoAfter(t) == 1 + Cardinality({k \in Def : C[k].t1 <= t})
@@ -60,13 +61,14 @@ CaseFails(i, r) ==
                    ELSE IF C[k].t1 > SetMin(DueTimes(k)) THEN C[k].t1 - SetMin(DueTimes(k)) ELSE 0
   IN   Chk(Want, i, "C30_NoMiss", \A k \in Waits : C30_NoMiss(DueFor(k), Limit))
     \o Chk(Want, i, "C30_TerminateReturns", \A k \in Terms : C[k].ret \/ C30_NoMiss(C[k].t1 - C[k].t0, Limit))
+    \o Chk(Want, i, "C30_NotifyReturns", \A k \in Notifs : C[k].ret \/ C30_NoMiss(C[k].t1 - C[k].t0, Limit))
     \o Chk(Want, i, "C30_Within", \A k \in Returned : C30_Within(Lo(C[k].t0), Hi(C[k].t1), C[k].idx))
     \o Chk(Want, i, "C30_MonotoneReturns", \A k \in Returned : C30_MonotoneReturns(Floor(k), C[k].idx))
     \o Chk(Want, i, "C30_ReturnsOnChangeOnly",
            \A k \in Returned : C30_ReturnsOnChangeOnly(C[k].prev, C[k].idx, C[k].err, TermStart <= C[k].t1,
                                                        C[k].c0 >= 0 /\ C[k].c0 <= C[k].t1))
     \o Chk(Want, i, "C30_EveryUnlockAdvances",
-           \A k \in K : C[k].op = "unlock" => C30_EveryUnlockAdvances(C[k].before, C[k].after, TermStart <= C[k].t1))
+           \A k \in K : (C[k].op = "unlock" /\ C[k].ret) => C30_EveryUnlockAdvances(C[k].before, C[k].after, TermStart <= C[k].t1))
 
 WellFormed(r) ==
   /\ Has(r, "ev") /\ r.ev = "TrackerCase" /\ Has(r, "calls")
